@@ -65,7 +65,9 @@ def run_case(prop, suite, ops, spec=False):
     """run one case alone on implementation and model; returns (impl_outs, model_outs)"""
     env = core.goenv()
     env.update(suite.env)
-    _, io, ie = core.run_lines([core.hv_path(prop, suite.tags), suite.suite_arg, "run"], ops, env=env)
+    rc, io, ie = core.run_lines([core.hv_path(prop, suite.tags), suite.suite_arg, "run"], ops, env=env)
+    if rc != 0 and len(io) < len(ops) and suite.kind != "monitor":
+        io = io + ["<crash>"] + ["<skipped>"] * (len(ops) - len(io) - 1)
     if suite.kind == "monitor":
         _, mo, _ = core.run_lines([core.HOPMODEL, suite.suite_arg], io)
         return io, mo
@@ -84,6 +86,8 @@ def differs(suite, ops, io, mo):
             continue
         x = io[k] if k < len(io) else "<missing>"
         y = mo[k] if k < len(mo) else "<missing>"
+        if x == "<skipped>":
+            continue
         if x != y:
             return k
     return None
@@ -223,7 +227,7 @@ def run_check(cfg, tier, seed):
                         return ["generator failed: " + err[-1500:]]
                     if suite.kind == "monitor":
                         return execute_monitor(t, suite)
-                    return t.execute(suite.timeout)
+                    return t.execute(suite.timeout, suite.env)
                 with ThreadPoolExecutor(max_workers=min(parts, os.cpu_count() or 4)) as ex:
                     for t, errs in zip(ties, ex.map(one, ties)):
                         tie_errors += ["%s part %d: %s" % (suite.name, t.part, e) for e in errs]
@@ -251,7 +255,7 @@ def run_check(cfg, tier, seed):
                 if ps in pre_seen:
                     continue
                 pre_seen.append(ps)
-            if len(seen_sigs) >= 12:
+            if len(seen_sigs) >= 12 or len(violations) >= 3:
                 break
             g = shrink_failure(pid, suite, f)
             k = g["k"]
